@@ -377,6 +377,9 @@ func genFromRootOp(c *Ctx, allowMassive bool) Op {
 	case 0:
 		op.Kind = "output"
 		op.Branch = branchSets[c.Pick(4, 1, 1, 1, 1, 1, 1)]
+		if op.Branch != nil && c.Chance(1, 5) {
+			op.BranchOnly = []string{"last", "mid"}[c.Draw(2)]
+		}
 	case 1:
 		op.Kind, op.Encode = "output", 1
 	case 2:
@@ -389,6 +392,9 @@ func genFromRootOp(c *Ctx, allowMassive bool) Op {
 	case 5:
 		op.Kind = "walk"
 		op.Branch = branchSets[c.Pick(4, 1, 1, 1, 1, 1, 1)]
+		if op.Branch != nil && c.Chance(1, 5) {
+			op.BranchOnly = []string{"last", "mid"}[c.Draw(2)]
+		}
 	case 6:
 		op.Kind = "walkiter"
 	case 7:
